@@ -42,6 +42,19 @@ BUDGET = {'quick': 240, 'thorough': 1500}
 CONTROL_TABLE = {'@': 0, '`': 0, '[': 27, '{': 27, '\\': 28, '|': 28, ']': 29, '}': 29, '^': 30, '~': 30, '_': 31, '?': 127}
 
 
+def _as_iterable(items, kind):
+    items = list(items)
+    if kind == 'tuple':
+        return tuple(items)
+    if kind == 'generator':
+        return (x for x in items)
+    if kind == 'iterator':
+        return iter(items)
+    if kind == 'map':
+        return map(lambda x: x, items)
+    return items
+
+
 def shards(tier):
     q = tier == 'quick'
     return [{'kind': 'hist', 'n': 300 if q else 2500, 'big': not q} for _ in range(16)]
@@ -81,7 +94,9 @@ def histories(draw, big=False, want_logs=False, transports=('pty', 'pty', 'fd', 
         elif k == 5:
             op = ['write', draw(P)]
         elif k == 6:
-            op = ['writelines', draw(st.lists(P, min_size=0, max_size=3))]
+            # "any iterable object producing strings": containers and one-shot iterables alike
+            op = ['writelines', draw(st.lists(P, min_size=0, max_size=3)),
+                  draw(st.sampled_from(['list', 'list', 'tuple', 'generator', 'iterator', 'map']))]
         elif k == 7 and transport == 'pty':
             op = ['sendcontrol', draw(st.sampled_from(list('abcdefghijklmnopqrstuvwxyz') + list('AGMZ') + list(CONTROL_TABLE) + ['1', '!', 'é']))]
         elif k == 8 and transport == 'pty':
@@ -283,7 +298,7 @@ def run_history(case, logs=None):
                 elif kind == 'writelines':
                     for p in op[1]:
                         mo.send(p)
-                    child.writelines(list(op[1]))
+                    child.writelines(_as_iterable(op[1], op[2] if len(op) > 2 else 'list'))
                 elif kind == 'sendcontrol':
                     byte = control_byte(op[1])
                     got = child.sendcontrol(op[1])
